@@ -1,7 +1,7 @@
 (* C19  Channel state views are total and self-consistent (FSM level).  Statements only.
    Totality: every accessor of Fsm.v/View.v is a total Gallina function on every record. *)
 From Coq Require Import List NArith ZArith String Bool.
-From DT Require Import GenStatus GenEvent FsmTypes GenFsm Fsm FsmFacts C19Proofs.
+From DT Require Import GenStatus GenEvent GenMsgType FsmTypes GenFsm Fsm Machine View Caches Msg Node FsmFacts C19Proofs NodeFacts NodeProps.
 Import ListNotations.
 
 Theorem C19_last_is_final_entry :
@@ -54,3 +54,21 @@ Theorem C19_first_voucher_is_opening_voucher :
   forall es c, c_vouchers c <> [] -> first_voucher (fold_left apply_chan es c) = first_voucher c.
 Proof. exact first_voucher_is_opening_voucher. Qed.
 Print Assumptions C19_first_voucher_is_opening_voucher.
+
+(* node level: over every history of inputs a well-formed record stays well-formed (so its views
+   stay consistent) and both logs only grow *)
+Theorem C19_wf_node_history :
+  forall l n k cs,
+    lookup k (n_chans n) = Some cs -> wf (m_chan (cs_m cs)) ->
+    exists cs', lookup k (n_chans (run_history n l)) = Some cs' /\ wf (m_chan (cs_m cs')).
+Proof. exact wf_node_history. Qed.
+Print Assumptions C19_wf_node_history.
+
+Theorem C19_logs_node_history :
+  forall l n k cs,
+    lookup k (n_chans n) = Some cs ->
+    exists cs' s1 s2, lookup k (n_chans (run_history n l)) = Some cs' /\
+      c_vouchers (m_chan (cs_m cs')) = c_vouchers (m_chan (cs_m cs)) ++ s1 /\
+      c_results (m_chan (cs_m cs')) = c_results (m_chan (cs_m cs)) ++ s2.
+Proof. exact logs_history. Qed.
+Print Assumptions C19_logs_node_history.
